@@ -10,8 +10,7 @@ from pyvc.core import mk_int, zint
 
 def _sensible_fill_value(it, a):
     """int('9' * (digits(max_count) + 1)): a value of the form 10^k - 1 strictly larger than every node / slot count.
-    (String arithmetic on a symbolic count is outside the executor; verified on concrete counts by C10
-    scenario `sensible_fill_value` and natively.)"""
+    (Verified against the real body by C10 scenario `sensible_fill_value exceeds every index`.)"""
     c = core.ctx()
     topo = a['self']
     nodes = it.getattr(topo, 'node_count')
@@ -26,6 +25,6 @@ def _sensible_fill_value(it, a):
 
 CONTRACTS = [
     Contract('emsarray.conventions.ugrid', 'Mesh2DTopology.sensible_fill_value', post=_sensible_fill_value,
-             verified_by='C10 sensible_fill_value (concrete counts) + native'),
+             verified_by='C10 scenario sensible_fill_value (symbolic counts, case split on the digit count)'),
 ]
 FILL_KEY = CONTRACTS[0].key
